@@ -35,6 +35,7 @@ type Op struct {
 // Case is a generated history plus schedule.
 type Case struct {
 	Mod   int    `json:"mod"`           // custom equality: equal mod Mod (0 = none)
+	Dir   bool   `json:"dir,omitempty"` // the custom comparator is directional: equal(held, incoming) iff incoming < held (a cell that only moves up)
 	NoZ   bool   `json:"noz,omitempty"` // the custom comparator never calls a zero operand equal to anything (not even to zero)
 	Init  int    `json:"init"`
 	Ops   []Op   `json:"ops"`
@@ -49,7 +50,7 @@ func genCase(t *rapid.T) Case {
 		case "set":
 			op.V = rapid.IntRange(0, 8).Draw(t, "v")
 		case "swap":
-			op.Swap = rapid.SampledFrom([]string{"inc", "inc", "const", "nil"}).Draw(t, "swap")
+			op.Swap = rapid.SampledFrom([]string{"inc", "inc", "const", "nil", "panic"}).Draw(t, "swap")
 			op.V = rapid.IntRange(0, 8).Draw(t, "v")
 		case "wait":
 			op.Wait = rapid.SampledFrom([]string{"value", "change", "empty", "valid", "valid", "nilvalid"}).Draw(t, "wait")
@@ -75,6 +76,9 @@ func genCase(t *rapid.T) Case {
 		Sched: sched.GenSchedule(t, ev.Pick(120, 400)),
 	}
 	cs.NoZ = cs.Mod != 0 && rapid.Bool().Draw(t, "noz")
+	if cs.Mod == 0 && rapid.IntRange(0, 3).Draw(t, "dir") == 0 {
+		cs.Dir = true
+	}
 	return cs
 }
 
@@ -99,9 +103,9 @@ func run(t *testing.T, cs Case) *ev.Verdict {
 	v := &ev.Verdict{}
 	canon, _ := json.Marshal(struct {
 		Mod, Init int
-		NoZ       bool
+		NoZ, Dir  bool
 		Ops       []Op
-	}{cs.Mod, cs.Init, cs.NoZ, cs.Ops})
+	}{cs.Mod, cs.Init, cs.NoZ, cs.Dir, cs.Ops})
 	v.Canon = string(canon)
 	c, berr := sched.Run(t, []string{"broadcast.lock", "broadcast.unlocked"}, cs.Sched, func(c *sched.Ctl) { body(c, cs, v) })
 	v.Trace = c.Trace()
@@ -125,13 +129,19 @@ func body(c *sched.Ctl, cs Case, v *ev.Verdict) {
 		if a == b {
 			return true
 		}
+		if cs.Dir {
+			return b < a // (held, incoming): a smaller incoming value is "no change"
+		}
 		if cs.NoZ && (a == 0 || b == 0) {
 			return false
 		}
 		return cs.Mod != 0 && a%cs.Mod == b%cs.Mod
 	}
 	var ctr *ccontainer.CContainer[int]
-	if cs.Mod != 0 {
+	if cs.Dir {
+		// the container documents its calls as equal(current, new): a directional comparator
+		ctr = ccontainer.NewCContainerWithEqual(cs.Init, func(a, b int) bool { return b < a })
+	} else if cs.Mod != 0 {
 		ctr = ccontainer.NewCContainerWithEqual(cs.Init, func(a, b int) bool {
 			if cs.NoZ && (a == 0 || b == 0) {
 				// e.g. a comparator over pointers that starts with "a != nil && b != nil &&":
@@ -162,7 +172,9 @@ func body(c *sched.Ctl, cs Case, v *ev.Verdict) {
 
 	cond := func(w *waiter, x int) bool {
 		switch w.op.Wait {
-		case "value", "nilvalid":
+		case "nilvalid":
+			return !cmp(x, 0) // the default validator compares (value, empty)
+		case "value":
 			return !cmp(0, x)
 		case "change":
 			return !cmp(w.op.Old, x)
@@ -305,6 +317,15 @@ func body(c *sched.Ctl, cs Case, v *ev.Verdict) {
 						cb = func(x int) int { seen = x; return x + 1 }
 					case "const":
 						cb = func(x int) int { seen = x; return o.V }
+					}
+					if o.Swap == "panic" {
+						// a fault: the callback panics inside the critical section, the caller recovers;
+						// the cell keeps its value and must stay usable
+						func() {
+							defer func() { _ = recover() }()
+							ctr.SwapValue(func(int) int { panic("ccontx: injected panic in a SwapValue callback") })
+						}()
+						return
 					}
 					ret := ctr.SwapValue(cb)
 					em.Lock()
@@ -473,7 +494,7 @@ func body(c *sched.Ctl, cs Case, v *ev.Verdict) {
 func TestC15(t *testing.T) {
 	ev.Drive(t, ev.Runner[Case]{
 		Prop: P,
-		Rule: "one CContainer[int] (plain, equal-mod-4 equality, or a mod-4 comparator that never calls a zero operand equal); ops SetValue, SwapValue(inc|const|nil), GetValue, waiters WaitValue/WaitValueChange/WaitValueEmpty/WaitValueWithValidator(pred, failing pred, nil) with own context and optional error channel, Cancel, send (nil or error) / close on the error channel; sequential model advanced in the order the controller grants the critical sections; non-trivial iff a write changed the cell while a waiter was parked between its sample and its blocking select; distinct by hash(ops, realised grant trace)",
+		Rule: "one CContainer[int] (plain, equal-mod-4 equality, a mod-4 comparator that never calls a zero operand equal, or a directional comparator equal(held, incoming) iff incoming < held); ops SetValue, SwapValue(inc|const|nil|panicking callback), GetValue, waiters WaitValue/WaitValueChange/WaitValueEmpty/WaitValueWithValidator(pred, failing pred, nil) with own context and optional error channel, Cancel, send (nil or error) / close on the error channel; sequential model advanced in the order the controller grants the critical sections; non-trivial iff a write changed the cell while a waiter was parked between its sample and its blocking select; distinct by hash(ops, realised grant trace)",
 		Gen:  genCase,
 		Run:  run,
 	})
